@@ -36,6 +36,10 @@ type Entry struct {
 	To int    `json:"to"` // index of blob / tree; 0 for sub
 	N  int    `json:"n"`  // name id
 	NL int    `json:"nl"` // name length in bytes
+	// Mode, when set, is the octal spelling written into the tree object instead of the canonical
+	// one of K (same file-type bits: 100664, 040000, 120777, 160755 ...); the kind is still K
+	Mode string `json:"mode,omitempty"`
+	ML   int    `json:"ml,omitempty"` // len(Mode), for the oracle (set by Normalize)
 }
 
 type Commit struct {
@@ -75,6 +79,9 @@ func (g *Graph) Normalize() {
 	for i := range g.Trees {
 		if g.Trees[i] == nil {
 			g.Trees[i] = []Entry{}
+		}
+		for j := range g.Trees[i] {
+			g.Trees[i][j].ML = len(g.Trees[i][j].Mode)
 		}
 	}
 	if g.Commits == nil {
